@@ -56,13 +56,17 @@ def r1_handler_coverage(ctx, sym, mod, fn, g):
     return sites[0]
 
 
-def verify_outcomes(ctx, sym, mod, fn):
+_UNSET = object()
+
+
+def verify_outcomes(ctx, sym, mod, fn, outcomes=('accepted', 'SyntaxError', 'IndentationError', 'TabError'),
+                    exc_filename=_UNSET):
     """verify() executed abstractly for every parser outcome x {code given, code defaulted from the submission} x
     {ordinary text, whitespace-only text}. Yields (scenario dict, observations dict)."""
     from .. import symexec
     import builtins
     tool = sym.const(mod, ast.parse('TOOL_NAME', mode='eval').body)
-    for outcome in ('accepted', 'SyntaxError', 'IndentationError', 'TabError'):
+    for outcome in outcomes:
         for given in (True, False):
             for text, muted, enhance in (('x = 1\n', False, True), ('x = 1\n', True, True), ('x = 1\n', False, False),
                                          ('x = 1\n', True, False), ('  \n\t\n', False, True), ('', False, True)):
@@ -72,6 +76,9 @@ def verify_outcomes(ctx, sym, mod, fn):
                 exc = Obj('exception', exc_kind=outcome, lineno=symexec.marker('e.lineno'),
                           offset=symexec.marker('e.offset'), filename=symexec.marker('e.filename'),
                           msg='invalid syntax', end_lineno=None, end_offset=None, text=None)
+                if exc_filename is not _UNSET:
+                    exc.attrs.update(filename=exc_filename, lineno=None, offset=None, __open__=True,
+                                     msg='source code string cannot contain null bytes')
 
                 def parse(src, filename='<unknown>', *a, **k):
                     rec.events.append(('ast.parse', (src, filename) + tuple(a), k))
@@ -184,6 +191,79 @@ def r3_iff(ctx, sym, mod, fn, g, site):
                   "blank_source constructed %d time(s) for the text %r" % (len(rec.named('blank_source')), sc['text']),
                   "an empty submission is not reported as blank (or a non-empty one is)")
     ctx.floor('R3', 'verify scenarios', n, 20)
+
+
+def r9_error_without_filename(ctx, sym, mod, fn):
+    ctx.rule('R9', "Optional[str] flow: CPython's 'source code string cannot contain null bytes' SyntaxError carries no "
+                   "file name (e.filename is None, like its lineno and offset). verify() is executed with such an "
+                   "error; the file name and the exception object it hands to the feedback constructor are then fed to "
+                   "pedal's own syntax_error.__init__, ExpandedTraceback (constructor, build_traceback, "
+                   "_fix_frame_line, format_traceback, FakeFrame) and the methods of every Formatter class pedal "
+                   "ships, all executed abstractly: the feedback is constructed without raising under each of them")
+    from .. import symexec
+    import builtins
+    handed = None
+    for sc, ob in verify_outcomes(ctx, sym, mod, fn, outcomes=('SyntaxError',), exc_filename=None):
+        if sc['given'] or sc['text'] != 'x = 1\n' or sc['muted'] or not sc['enhance']:
+            continue
+        calls_ = ob['rec'].named('syntax_error')
+        ctx.require(ob['raised'] is None and len(calls_) == 1 and len(calls_[0][1]) >= 5,
+                    "verify() hands a SyntaxError to syntax_error(line, filename, code, offset, exception, ...)")
+        handed = (calls_[0][1][1], ob['exc'].attrs.get('filename'), ob['filename'])
+    ctx.require(handed is not None, "verify() scenario with a SyntaxError that has no file name")
+    arg_filename, exc_filename, main_file = handed
+    fmod = ctx.repo.module(SFEED)
+    init = fmod.func('syntax_error.__init__')
+    fm = sym.find_class('pedal.core.formatting', 'Formatter')
+    classes = sorted(sym.subclasses(fm), key=lambda c: (c.module.name, c.name))
+    ctx.floor('R9', 'Formatter classes shipped', len(classes), 5)
+    text = 'a\x00\nb\nc'
+
+    def b_isinstance(o, t):
+        ts = t if isinstance(t, tuple) else (t,)
+        if isinstance(o, Obj) and 'exc_kind' in o.attrs:
+            k = getattr(builtins, o.attrs['exc_kind'])
+            return any(isinstance(x, type) and issubclass(k, x) for x in ts)
+        return isinstance(o, tuple(x for x in ts if isinstance(x, type)))
+    for ci in classes:
+        for offsets in ({}, {main_file: 10}):
+            rec = symexec.Recorder()
+            submission = symexec.model_submission(ctx, text, main_file=main_file, line_offsets=dict(offsets),
+                                                  instructor_file='on_run.py')
+            fmt = symexec.self_obj(ci.module, ci.name)
+            report = Obj('report', submission=submission, format=fmt)
+            finit = sym.method(ci, '__init__')
+            if finit is not None:
+                _, raised0 = symexec.run(symexec.new_fd(sym, ci.module), finit[1], [report], bound_self=fmt,
+                                         what='%s.__init__' % ci.name)
+                ctx.require(raised0 is None, "%s(report) constructs" % ci.name)
+            exc = Obj('exception', msg='source code string cannot contain null bytes', lineno=None, offset=None,
+                      end_lineno=None, end_offset=None, filename=exc_filename, text=None, exc_kind='SyntaxError')
+            me = symexec.self_obj(fmod, 'syntax_error', constant_fields={'suggestion': 'Check line {lineno}'})
+            sup = Obj('super')
+            symexec.method(sup, '__init__', rec.stub('super().__init__'))
+            fd = symexec.new_fd(sym, fmod, calls={
+                'wrap_fields': lambda fmt_, fields, *a_, **k_: dict(fields), 'super': lambda *a: sup,
+                'get_exception_name': lambda e: 'SyntaxError', 'add_indefinite_article': lambda x: 'a ' + x,
+                'traceback.TracebackException': lambda *a, **k: Obj('TracebackException', stack=[]),
+                # the traceback of an error raised by ast.parse has one frame: verify() itself
+                'traceback.extract_tb': lambda tb, **k: [('/pedal/source/source.py', 140, 'verify',
+                                                          'parsed = ast.parse(code, filename)')],
+                'isinstance': b_isinstance}, extra={'SyntaxError': SyntaxError})
+            _, raised = symexec.run(fd, init, [None, arg_filename, text, None, exc, ('T', exc, None)],
+                                    {'report': report}, bound_self=me, what='syntax_error.__init__')
+            filed = rec.named('super().__init__')
+            ctx.check(raised is None and len(filed) == 1, 'R9',
+                      'null-byte-error:%s%s' % (ci.name, ':in-section' if offsets else ''), fmod,
+                      getattr(raised, 'node', None) or init,
+                      "verify() hands file name %r and an exception whose .filename is %r to syntax_error(); with "
+                      "formatter %s its construction %s" % (
+                          arg_filename, exc_filename, ci.name,
+                          'raises %s (%s)' % (raised.kind, raised.detail) if raised is not None
+                          else 'reaches Feedback.__init__ %d time(s)' % len(filed)),
+                      "set_formatter(%s); verify() on the text 'a = 1\\0': %s escapes instead of a syntax error "
+                      "being attached" % (ci.name, raised.kind if raised is not None else 'an exception'),
+                      construct='%s.filename' % ci.name)
 
 
 def r7b_line_views_agree(ctx, sym):
@@ -355,28 +435,37 @@ def r6_r2_line(ctx, sym):
                  "verify() on the text 'x\\0' raises TypeError while building the traceback")
     if not flow.uses:
         ctx.ok('R2', 'build_traceback:optional-uses', sample='offset/lineno defaulted before arithmetic')
-    # values handed to FakeFrame whose lineno is shifted by _fix_frame_line
-    ff = umod.func('FakeFrame.__init__')
-    fix = umod.func('ExpandedTraceback._fix_frame_line')
-    ctx.analysed_function(umod, fix)
-    shifted = {n.target.attr for n in ast.walk(fix) if isinstance(n, ast.AugAssign)
-               and isinstance(n.target, ast.Attribute) and norm(n.target.value) == 'frame'}
-    shifted |= {x.attr for n in ast.walk(fix) if isinstance(n, ast.BinOp) for x in (n.left, n.right)
-                if isinstance(x, ast.Attribute) and norm(x.value) == 'frame'}
-    ffparams = [a.arg for a in ff.args.args][1:]
-    stored = {}
-    for n in body_walk(ff):
-        if isinstance(n, ast.Assign) and isinstance(n.value, ast.Name) and isinstance(n.targets[0], ast.Attribute):
-            stored[n.value.id] = n.targets[0].attr
-    for call, idx, text in flow.passes:
-        if call_name(call) == 'FakeFrame' and isinstance(idx, int) and idx < len(ffparams):
-            attr = stored.get(ffparams[idx])
-            if attr in shifted:
-                ctx.fail('R2', 'build_traceback:FakeFrame(%s=%s)' % (ffparams[idx], text), umod, call,
-                         "`%s` (may be None) becomes frame.%s, on which _fix_frame_line does arithmetic" % (text, attr),
-                         "verify() on the text 'x\\0' raises TypeError while shifting the fake frame's line")
-    ctx.ok('R2', 'build_traceback:FakeFrame-args', sample={'shifted_attrs': sorted(shifted)}, nontrivial=False)
-    ctx.floor('R2', 'attributes shifted by _fix_frame_line', len(shifted), 1)
+    # the frame pedal makes up for a SyntaxError: build_traceback (with FakeFrame and _fix_frame_line) executed on an
+    # error for which CPython reports no position, inside and outside a section
+    import builtins
+
+    def b_isinstance(o, t):
+        ts = t if isinstance(t, tuple) else (t,)
+        if isinstance(o, Obj) and 'exc_kind' in o.attrs:
+            k = getattr(builtins, o.attrs['exc_kind'])
+            return any(isinstance(x, type) and issubclass(k, x) for x in ts)
+        return isinstance(o, tuple(x for x in ts if isinstance(x, type)))
+    for lineno, offset in ((None, None), (2, None), (2, 3)):
+        for offsets, want in (({'student.py': 10}, (lineno or 1) + 10), ({}, lineno or 1)):
+            exc = Obj('exception', msg='m', lineno=lineno, offset=offset, end_lineno=None, end_offset=None,
+                      filename='student.py', text=None, exc_kind='SyntaxError')
+            me = symexec.self_obj(umod, 'ExpandedTraceback', exception=exc, exc_info=('T', exc, None),
+                                  line_offsets=dict(offsets), full_traceback=False, hide_filenames=['on_run.py'],
+                                  show_filenames=['student.py'], original_code_lines=['l1', 'l2', 'l3'],
+                                  student_files={'student.py': ['l1', 'l2', 'l3']})
+            fd = symexec.new_fd(sym, umod, calls={
+                'traceback.TracebackException': lambda *a, **k: Obj('TracebackException', stack=[]),
+                'isinstance': b_isinstance}, extra={'SyntaxError': SyntaxError})
+            frames, raised = symexec.run(fd, bt, [], bound_self=me, what='ExpandedTraceback.build_traceback')
+            got = frames[-1].attrs.get('lineno') if raised is None and isinstance(frames, list) and frames and \
+                isinstance(frames[-1], Obj) else None
+            ctx.check(raised is None and got == want, 'R2',
+                      'build_traceback:made-up-frame[lineno=%r,offset=%r,%s]' % (
+                          lineno, offset, 'in-section' if offsets else 'whole-file'), umod, bt,
+                      "for a SyntaxError with lineno=%r offset=%r and section offsets %r build_traceback %s; expected a "
+                      "frame on line %r" % (lineno, offset, offsets, 'raises %s (%s)' % (raised.kind, raised.detail)
+                                            if raised is not None else 'ends with a frame on line %r' % got, want),
+                      "verify() on the text 'x\\0' raises TypeError while the traceback is being built")
 
 
 def section_offsets(ctx, sym):
@@ -424,6 +513,7 @@ def run(ctx):
     r7_line_indexing(ctx, sym)
     r8_text_kept(ctx, sym)
     r7b_line_views_agree(ctx, sym)
+    r9_error_without_filename(ctx, sym, mod, fn)
     ctx.assume("ast.parse(str) fails only with SyntaxError, ValueError, RecursionError or MemoryError (CPython docs "
                "and observed on 3.12); agreement of the reported line with CPython's for every corrupted text beyond "
                "'it is e.lineno plus the section offset' is not decided")
